@@ -184,7 +184,7 @@ CHECKS = {
         "value / group / sort, nesting <= 3) are unparsed to text and rendered by the real engine from exact-size buffers into a non-empty "
         "stream, twice, in three character widths under ASan/UBSan; TLC judges every event: output = Render(ast, doc), value untouched, "
         "only the stream's tail changed, widths agree.",
-   note="sampled ASTs (6k quick / 40k thorough); documentation-silent situations are not generated (listed in the evidence assumptions); "
+   note="sampled ASTs (6k quick / 24k thorough); documentation-silent situations are not generated (listed in the evidence assumptions); "
         "expressions outside QExpr's exact domain make an event unjudged.",
    technique="TLA+ reference interpreter of the template language; TLC batch oracle over recorded renders of generated ASTs",
    design="6 (C02), appendix E.4/G"),
